@@ -143,7 +143,6 @@ vnacal_new_t *vnacal_new_alloc(vnacal_t *vcp, vnacal_type_t type,
     vnp->vn_et_tolerance = VNACAL_NEW_DEFAULT_ET_TOLERANCE;
     vnp->vn_iteration_limit = VNACAL_NEW_DEFAULT_ITERATION_LIMIT;
     vnp->vn_pvalue_limit = VNACAL_NEW_DEFAULT_PVALUE_LIMIT;
-    vnp->vn_systems = systems;
     if ((vnp->vn_system_vector = calloc(systems,
 		    sizeof(vnacal_new_system_t))) == NULL) {
 	_vnacal_error(vcp, VNAERR_SYSTEM,
@@ -151,6 +150,7 @@ vnacal_new_t *vnacal_new_alloc(vnacal_t *vcp, vnacal_type_t type,
 	vnacal_new_free(vnp);
 	return NULL;
     }
+    vnp->vn_systems = systems;
     for (int i = 0; i < systems; ++i) {
 	vnacal_new_system_t *vnsp = &vnp->vn_system_vector[i];
 
